@@ -169,39 +169,54 @@ Proof.
 Qed.
 
 (* eventful-idle can only be entered by a wait return and is left by any callback *)
+Lemma EI_plain : forall m e, plain11 e -> EI (mon_step m e) -> EI m.
+Proof.
+  intros m e P [H1 H2]. pose proof (sp3_plain m e P) as E. unfold sp3 in E. injection E as E1 E2 _.
+  split; [rewrite <- E1; exact H1|rewrite <- E2; exact H2].
+Qed.
+
+Lemma EI_call : forall m e, is_call e -> 0 <= ncall m -> EI (mon_step m e) -> False.
+Proof.
+  intros m e C N [_ H2]. pose proof (sp3_call m e C) as E. unfold sp3 in E. injection E as _ E2 _.
+  rewrite E2 in H2. lia.
+Qed.
+
+Lemma nr_cases : forall e, nr e -> (plain11 e /\ ~ is_call e) \/ is_call e.
+Proof. intros e. destruct e; cbn; try tauto; destruct n; tauto. Qed.
+
 Lemma EI_keeps : forall m e, nr e -> 0 <= ncall m -> EI (mon_step m e) -> EI m /\ ~ is_call e.
 Proof.
-  intros m e Q N [H1 H2].
-  destruct e; cbn [nr is_call] in *; try contradiction;
-    try (match type of H1 with context [mon_step m ?e] =>
-       pose proof (sp3_plain m e I) as E; unfold sp3 in E; injection E as E1 E2 _; rewrite E1 in H1; rewrite E2 in H2; split; [split; assumption|tauto] end);
-    try (match type of H1 with context [mon_step m ?e] =>
-       pose proof (sp3_call m e I) as E; unfold sp3 in E; injection E as E1 E2 _; rewrite E2 in H2; lia end).
-  destruct n; [contradiction|].
-  pose proof (sp3_plain m (TRet None fds clk) I) as E; unfold sp3 in E; injection E as E1 E2 _; rewrite E1 in H1; rewrite E2 in H2. split; [split; assumption|tauto].
+  intros m e Q N H. destruct (nr_cases e Q) as [[P NC]|C].
+  - split; [apply (EI_plain m e P H)|exact NC].
+  - exfalso. apply (EI_call m e C N H).
 Qed.
 
 Lemma spin_after_wait : forall m n c mx t i g, (EI m -> spin m = 0) ->
   spin (mon_step m (TWait n c mx t i g)) = 1 -> EI m.
 Proof.
-  intros m n c mx t i g O H. pose proof (sp3_wait m n c mx t i g) as E. unfold sp3 in E. injection E as _ _ E3.
+  intros m n c mx t i g O H.
+  assert (E3 : spin (mon_step m (TWait n c mx t i g)) = spc m) by (exact (f_equal snd (sp3_wait m n c mx t i g))).
   rewrite E3 in H. unfold spc in H. destruct (had_ev m) eqn:HE; [|discriminate H]. cbn [andb] in H.
-  destruct (Z.eqb_spec (ncall m) 0) as [Z0|NZ]; [split; [reflexivity|exact Z0]|discriminate H].
+  destruct (Z.eqb_spec (ncall m) 0) as [Z0|NZ]; [split; [exact HE|exact Z0]|discriminate H].
 Qed.
 
 (* need_call is not touched while no callback runs *)
+Lemma nc_plain11 : forall m e, plain11 e -> need_call (mon_step m e) = need_call m.
+Proof.
+  intros m e P. destruct e; try contradiction; try reflexivity.
+  - destruct n; [contradiction|]. apply (proj1 (plain7_same m (TRet None fds clk) I)).
+  - cbn [mon_step]. apply nc_action.
+  - apply (proj1 (plain7_same m (TRes kind id rc) I)).
+  - apply (proj1 (plain7_same m (TTear numobjs) I)).
+  - apply (proj1 (plain7_same m (TDone openfds) I)).
+  - apply (proj1 (plain7_same m THang I)).
+Qed.
+
 Lemma need_call_keeps : forall m e b, nr e -> 0 <= ncall m -> (ncall m = 0 -> need_call m = b) ->
   ncall (mon_step m e) = 0 -> need_call (mon_step m e) = b.
 Proof.
-  intros m e b Q N V H.
-  destruct e; cbn [nr] in *; try contradiction;
-    try (match type of H with context [mon_step m ?e] =>
-       pose proof (sp3_call m e I) as E; unfold sp3 in E; injection E as _ E2 _; rewrite E2 in H; lia end);
-    try (match type of H with context [mon_step m ?e] =>
-       pose proof (sp3_plain m e I) as E; unfold sp3 in E; injection E as _ E2 _; rewrite E2 in H;
-       try (rewrite (proj1 (plain7_same m e I)); apply V; exact H) end).
-  - destruct n; [contradiction|].
-    pose proof (sp3_plain m (TRet None fds clk) I) as E; unfold sp3 in E; injection E as _ E2 _; rewrite E2 in H.
-    rewrite (proj1 (plain7_same m (TRet None fds clk) I)). apply V. exact H.
-  - cbn [mon_step]. rewrite nc_action. apply V. exact H.
+  intros m e b Q N V H. destruct (nr_cases e Q) as [[P _]|C].
+  - pose proof (sp3_plain m e P) as E. unfold sp3 in E. injection E as _ E2 _. rewrite E2 in H.
+    rewrite (nc_plain11 m e P). apply V. exact H.
+  - pose proof (sp3_call m e C) as E. unfold sp3 in E. injection E as _ E2 _. rewrite E2 in H. lia.
 Qed.
